@@ -33,6 +33,8 @@ RULE = ('cases = batches of data lines / sources drawn from the quantifier of C2
 REQUIRED_BRANCHES = ['eof', 'reject_columns_mod1', 'reject_columns_mod2', 'reject_flag', 'reject_flag_noninteger', 'reject_number', 'accept_n0',
                      'accept', 'roundtrip', 'name_longer_than_30', 'placeholder_999', 'negative_value', 'mixed_whitespace',
                      'dict_roundtrip', 'pickle_roundtrip', 'n12', 'fmt_text', 'parse_format_parse', 'valid_float_array',
+                     'flux_int_error_float', 'flux_float_error_int', 'array_int_dtype', 'array_float32', 'array_big_endian',
+                     'array_list_or_tuple', 'array_readonly', 'kept_sources_same_columns', 'kept_sources_mixed_columns',
                      'spelling_inf_nan', 'spelling_underscore', 'spelling_flag']
 ASSUMPTIONS = ['IEEE negative zero is excluded from the formatted sources: the rational model has a single zero, Python prints -0.0 '
                'as "-0.00000" / "-0.000e+00" (a sign the model cannot carry), and both texts read back as a value equal to 0, '
@@ -64,6 +66,87 @@ def gen_value(rng):
     mag = math.exp(rng.uniform(math.log(1e-30), math.log(1e30)))
     v = float('%.*g' % (rng.choice([1, 2, 3, 4, 6, 9, 17]), mag))
     return -v if rng.random() < 0.2 else v
+
+
+# how a caller may hand the three arrays to a Source: the setters take lists, tuples and 1-d arrays of any dtype
+FLOAT_KINDS = ['f8', 'list_float', 'tuple_float', 'f4', '>f8', 'readonly']
+INT_KINDS = ['list_int', 'tuple_int', 'i4', 'i8', '>i4']
+VALID_KINDS = ['i8', 'list_int', 'tuple_int', 'i4', '>i4', 'u1', 'f4', 'readonly_int']
+NP_DTYPE = {'f8': 'float64', 'list_float': 'float64', 'tuple_float': 'float64', 'f4': 'float32', '>f8': '>f8', 'readonly': 'float64',
+            'list_int': 'int64', 'tuple_int': 'int64', 'i4': 'int32', 'i8': 'int64', '>i4': '>i4', 'u1': 'uint8',
+            'readonly_int': 'int64'}
+
+
+def gen_int_value(rng):
+    r = rng.random()
+    if r < 0.15:
+        return -999
+    if r < 0.2:
+        return 0
+    v = rng.randint(1, 10 ** rng.randint(1, 9))
+    return -v if rng.random() < 0.2 else v
+
+
+def with_repr(rng, sd, kinds=None):
+    """give the source dict a representation for valid / flux / error and values that fit it"""
+    n = len(sd['valid'])
+    kv, kf, ke = kinds or (rng.choice(VALID_KINDS), rng.choice(FLOAT_KINDS + INT_KINDS), rng.choice(FLOAT_KINDS + INT_KINDS))
+    sd['repr'] = dict(valid=kv, flux=kf, error=ke)
+    if kf in INT_KINDS:
+        sd['flux'] = [gen_int_value(rng) for _ in range(n)]
+    if ke in INT_KINDS:
+        sd['error'] = [gen_int_value(rng) for _ in range(n)]
+    else:
+        # non-integer errors, so that a conversion to the flux dtype cannot go unnoticed
+        sd['error'] = [v if v != int(v) else v + 0.25 for v in sd['error']]
+    return sd
+
+
+def container(kind, vals):
+    dt = NP_DTYPE[kind]
+    if kind.startswith('list'):
+        return [int(v) if 'int' in kind else float(v) for v in vals]
+    if kind.startswith('tuple'):
+        return tuple(int(v) if 'int' in kind else float(v) for v in vals)
+    a = np.array(vals, dtype=dt)
+    if kind.startswith('readonly'):
+        a.flags.writeable = False
+    return a
+
+
+def effective(sd):
+    """the source dict with the values its arrays really hold (float32 rounds; everything else is exact)"""
+    r = sd.get('repr')
+    if not r:
+        return sd
+    e = dict(sd)
+    e['valid'] = [int(v) for v in np.array(sd['valid'], dtype=NP_DTYPE[r['valid']])]
+    e['flux'] = [float(v) for v in np.array(sd['flux'], dtype=NP_DTYPE[r['flux']])]
+    e['error'] = [float(v) for v in np.array(sd['error'], dtype=NP_DTYPE[r['error']])]
+    return e
+
+
+def repr_branches(sd):
+    r = sd.get('repr')
+    out = set()
+    if not r or not sd['valid']:
+        return out
+    ks = [r['valid'], r['flux'], r['error']]
+    if r['flux'] in INT_KINDS and r['error'] not in INT_KINDS:
+        out.add('flux_int_error_float')
+    if r['flux'] not in INT_KINDS and r['error'] in INT_KINDS:
+        out.add('flux_float_error_int')
+    if any(k in ('i4', 'i8', '>i4', 'u1') for k in ks[1:]) or r['valid'] in ('i4', '>i4', 'u1'):
+        out.add('array_int_dtype')
+    if 'f4' in ks:
+        out.add('array_float32')
+    if '>f8' in ks or '>i4' in ks:
+        out.add('array_big_endian')
+    if any(k.startswith('list') or k.startswith('tuple') for k in ks):
+        out.add('array_list_or_tuple')
+    if any(k.startswith('readonly') for k in ks):
+        out.add('array_readonly')
+    return out
 
 
 def spell(rng, v):
@@ -215,7 +298,32 @@ def gen_cases(seed, tier):
         if k % 5 == 4:
             for sd in srcs:
                 sd['valid_float'] = True       # flags held as an integer-valued float array (the setter admits it)
+        elif k % 4 in (1, 2):
+            for sd in srcs:
+                with_repr(rng, sd)             # lists / tuples / int32 / int64 / float32 / big-endian / read-only arrays
         yield dict(type='roundtrip' if k % 3 else 'state', sources=srcs, seed=seed)
+    # every (flux representation, error representation) pair, formatted and through dict / pickle
+    for typ in ('roundtrip', 'state'):
+        rng = rng_next()
+        srcs = []
+        for kf in FLOAT_KINDS + INT_KINDS:
+            for ke in FLOAT_KINDS + INT_KINDS:
+                n = rng.randint(1, 4)
+                sd = dict(name=gen_name(rng), x=round(rng.uniform(-360, 360), 4) + 0.0, y=round(rng.uniform(-90, 90), 4) + 0.0,
+                          valid=[rng.choice(VALID) for _ in range(n)], flux=[gen_value(rng) for _ in range(n)],
+                          error=[gen_value(rng) for _ in range(n)])
+                srcs.append(with_repr(rng, sd, (rng.choice(VALID_KINDS), kf, ke)))
+        yield dict(type=typ, sources=srcs, seed=seed)
+    # call histories: the sources of a data file read into a list, inspected after all later lines were parsed
+    for k in range(max(3, nrand // 10)):
+        rng = rng_next()
+        same = k % 2 == 0
+        n0 = rng.randint(1, 6)
+        lines = []
+        for _ in range(rng.randint(4, 12)):
+            n = n0 if (same or rng.random() < 0.5) else rng.randint(0, 6)
+            lines.append(layout(rng, good_tokens(rng, n)))
+        yield dict(type='kept', same_columns=same, lines=lines, seed=seed)
     # parse -> format -> parse: the sources are the ones from_ascii builds (np.float64 x/y, platform-int flags)
     for k in range(max(4, nrand // 4)):
         rng = rng_next()
@@ -426,6 +534,16 @@ def make_src(s):
     src = pk.make_source(s['name'], s['valid'], s['flux'], s['error'], x=s['x'], y=s['y'])
     if s.get('valid_float'):
         src.valid = np.array(s['valid'], dtype=float)
+    r = s.get('repr')
+    if r:
+        from sedfitter.source import Source
+        src = Source()
+        src.name = s['name']
+        src.x = s['x']
+        src.y = s['y']
+        src.valid = container(r['valid'], s['valid'])
+        src.flux = container(r['flux'], s['flux'])
+        src.error = container(r['error'], s['error'])
     return src
 
 
@@ -433,8 +551,10 @@ def run_roundtrip(case, with_model=True):
     from sedfitter.source import Source
     branches = set()
     drv = common.driver() if with_model else None
-    for s in case['sources']:
-        src = make_src(s)
+    for s0 in case['sources']:
+        src = make_src(s0)
+        s = effective(s0)
+        branches |= repr_branches(s0)
         try:
             line = src.to_ascii()
             back = Source.from_ascii(line)
@@ -453,7 +573,8 @@ def run_roundtrip(case, with_model=True):
               all(within_print(v, w) for v, w in zip(s['flux'], b['flux'])) and
               all(within_print(v, w) for v, w in zip(s['error'], b['error'])))
         if not ok:
-            return False, True, 'round trip through %r changed the source: wrote %r, read back %r' % (line, s, b), branches
+            return False, True, ('round trip through %r changed the source: wrote %r (held as %r), read back %r'
+                                 % (line, s, s0.get('repr', 'float64 arrays'), b)), branches
         if -999. in s['flux'] + s['error']:
             branches.add('placeholder_999')
         if with_model:
@@ -478,6 +599,38 @@ def run_roundtrip(case, with_model=True):
                 p = unhex(t.tok())
                 if p != '{0:9.5f}'.format(v):
                     return False, None, 'fmtf %r: Python %r, model %r' % (v, '{0:9.5f}'.format(v), p), branches
+    return True, None, '', branches
+
+
+def run_kept(case):
+    """the lines of a data file parsed into a list; every source is inspected after ALL lines were parsed, then the
+    first source's arrays are overwritten in place and the others inspected again (no shared storage)"""
+    from sedfitter.source import Source
+    branches = set()
+    kept = []
+    for line in case['lines']:
+        sp = spec(py_tokens(line))
+        if sp[0] != 'ok':
+            continue
+        try:
+            kept.append((line, sp[1], Source.from_ascii(line)))
+        except Exception as e:        # noqa
+            return False, True, 'from_ascii raised %s: %s on line %r' % (type(e).__name__, e, line), branches
+    for stage in ('after all lines were parsed', 'after the arrays of the first source were overwritten in place'):
+        for i, (line, f, src) in enumerate(kept):
+            if stage.startswith('after the arrays') and i == 0:
+                continue
+            got = fields(src)
+            if not same_fields(got, f):
+                return False, True, ('source %d of %d kept from line %r reads %r %s; documented reading %r'
+                                     % (i, len(kept), line, got, stage, f)), branches
+        if kept and stage.startswith('after all'):
+            first = kept[0][2]
+            for a in (first.valid, first.flux, first.error):
+                if len(a):
+                    a[...] = 7
+    if len(kept) >= 2:
+        branches.add('kept_sources_same_columns' if case.get('same_columns') else 'kept_sources_mixed_columns')
     return True, None, '', branches
 
 
@@ -539,15 +692,22 @@ def src_same_types(a, b):
     """beyond the property (reported as model/implementation disagreement only): same container and element types"""
     return (type(a.name) is type(b.name) and type(a.x) is type(b.x) and type(a.y) is type(b.y) and
             all(type(getattr(a, k)) is type(getattr(b, k)) and
-                np.asarray(getattr(a, k)).dtype == np.asarray(getattr(b, k)).dtype for k in ('valid', 'flux', 'error')))
+                # numpy itself stores arrays in native byte order for pickle protocols < 5: byte order is not compared
+                np.asarray(getattr(a, k)).dtype.newbyteorder('=') == np.asarray(getattr(b, k)).dtype.newbyteorder('=')
+                for k in ('valid', 'flux', 'error')))
 
 
 def run_state(case, with_model=True):
     from sedfitter.source import Source
     branches = set()
     drv = common.driver() if with_model else None
-    for s in case['sources']:
-        src = make_src(s)
+    for s0 in case['sources']:
+        src = make_src(s0)
+        s = effective(s0)
+        branches |= repr_branches(s0)
+        held = fields(src)
+        if (held['valid'], held['flux'], held['error']) != (s['valid'], s['flux'], s['error']):
+            return False, True, 'the setters changed the values of %r (held as %r): %r' % (s, s0.get('repr'), held), branches
         try:
             d = src.to_dict()
             back = Source.from_dict(d)
@@ -590,6 +750,9 @@ def evaluate(case, with_model=True):
     elif case['type'] == 'chain':
         ok, viol, detail, branches = run_chain(case, with_model)
         nontrivial = True
+    elif case['type'] == 'kept':
+        ok, viol, detail, branches = run_kept(case)
+        nontrivial = True
     else:
         ok, viol, detail, branches = run_state(case, with_model)
         nontrivial = True
@@ -598,7 +761,7 @@ def evaluate(case, with_model=True):
 
 def run_case(case):
     ok, viol, detail, branches, nontrivial = evaluate(case, True)
-    if case['type'] == 'chain':
+    if case['type'] in ('chain', 'kept'):
         sample = dict(type=case['type'], n_lines=len(case['lines']), first=case['lines'][:2])
     elif case['type'] == 'lines':
         sample = dict(type=case['type'], what=case['what'], n=case['n'], n_lines=len(case['lines']), first=case['lines'][:2])
@@ -624,6 +787,8 @@ def search(seed, tier, disagreeing_cases):
 
 def shrink(case):
     """keep only the first failing line / source of the batch"""
+    if case['type'] == 'kept':
+        return case
     key = 'lines' if case['type'] in ('lines', 'chain') else 'sources'
     items = case[key]
     for i in range(len(items)):
